@@ -251,6 +251,25 @@ pub fn dispatch(op: &str, a: &[Arg]) -> Option<String> {
                             }
                         }
                     }),
+                    // 3: data_start() of the entry this handle holds open (implementation-only scripts)
+                    3 => outs.push(match files[h].as_ref() {
+                        None => "NOENTRY".to_string(),
+                        Some(f) => format!("[DS {}]", on(f.data_start())),
+                    }),
+                    // 4: open entry arg through by_index_raw (no password, no decoder)
+                    4 => {
+                        files[h] = None;
+                        let p: *mut Ar = &mut *handles[h];
+                        let r = unsafe { (*p).by_index_raw(arg) };
+                        outs.push(match r {
+                            Err(e) => format!("[Err {}]", err_obs(&e)),
+                            Ok(f) => {
+                                let s = format!("[Ok {} {} {} {}]", ob(f.name().as_bytes()), on(f.size()), on(f.crc32()), on(f.data_start()));
+                                files[h] = Some(f);
+                                s
+                            }
+                        });
+                    }
                     _ => {
                         files[h] = None;
                         outs.push("closed".to_string());
